@@ -99,7 +99,11 @@ TRUSTED = ["harness/c14.py compares (working_index, cursor, validation_state, va
            "History.load: snapshot of the loaded strings, newest first, but awaiting between items)",
            "the gated validator (validate_async awaits a harness event) and the HApp subclass that holds back "
            "_async_validator() tasks until the schedule starts them are harness code; the real ThreadedValidator "
-           "family uses the unmodified class with an inner validator that blocks its worker thread",
+           "families (bare Buffer and PromptSession) use the unmodified class with an inner validator that blocks "
+           "its worker thread; they run under a watchdog (4 s, confirmed once with 30 s, circuit breaker after 3 "
+           "confirmed stalls per worker process) and a validation that does not complete, a worker whose verdict "
+           "nobody waits for, or a ValidationError that reaches the event loop instead of the validation coroutine "
+           "is reported as a violation on the real code",
            "harness/gen_c14.py reads the key bindings, the complete_while_typing filter, the word pattern and the "
            "end-of-history count from the live objects / the AST of the current tree"]
 ASSUMPTIONS = ["validators are functions of the text only (scripted family: needle + error position rule)",
@@ -257,7 +261,7 @@ class BlockingInner(ScriptedValidator):
                 self.waiting.append(entry)
                 self.calls += 1
             try:
-                ev.wait(300)
+                ev.wait(90)
             finally:
                 with self.lock:
                     self.waiting.remove(entry)
@@ -278,6 +282,59 @@ class BlockingInner(ScriptedValidator):
         with self.lock:
             for ev, _ in self.waiting:
                 ev.set()
+
+
+# ---- watchdog for the families that use a real ThreadedValidator (worker threads).
+# On the unchanged tree every such case completes within milliseconds.  A case that does not settle
+# within SHORT seconds is run once more with LONG seconds (a loaded machine must not look like a
+# hang); if it still does not settle, that is reported as a violation on the real code.  After
+# BREAK confirmed stalls in one worker process the rest of the family is skipped in that process.
+SHORT, LONG, BREAK = 4.0, 30.0, 3
+_STALLS = [0]
+_LIMIT = [SHORT]
+STALL_SIG = ("ThreadedValidator", "verdict never delivered / validation does not complete")
+
+
+class Stall(Exception):
+    """the validation coroutine / its worker thread did not reach a settled state in time"""
+
+
+class StallResult:
+    def __init__(self, msg):
+        self.msg = msg
+
+
+class Skipped:
+    pass
+
+
+async def wait_until(cond, what):
+    """poll `cond` (a few loop turns first, then with real time) until the current limit"""
+    for _ in range(6):
+        await asyncio.sleep(0)
+        if cond():
+            return
+    loop = asyncio.get_running_loop()
+    end = loop.time() + _LIMIT[0]
+    while not cond():
+        if loop.time() > end:
+            raise Stall(what)
+        await asyncio.sleep(0.001)
+
+
+def settled(b, inner, calls_before=None):
+    """the validation coroutine has ended, or it is waiting for a worker that is blocked in the
+    inner validator; an ORPHAN (a worker in the inner validator although the coroutine is not
+    running any more: nobody will ever look at its verdict) also counts - it is reported"""
+    running = bool(closure_var(b._async_validator, "running"))
+    fl = inner.in_flight()
+    if not running:
+        return True
+    return bool(fl) and (calls_before is None or inner.calls > calls_before)
+
+
+def orphaned(b, inner):
+    return (not bool(closure_var(b._async_validator, "running"))) and bool(inner.in_flight())
 
 
 class Abort(Exception):
@@ -504,6 +561,7 @@ class BufRig:
         else:
             self.inner = self.val = ScriptedValidator(list(case["val"]))
         self.accepted = []
+        self.orphans = []       # documents whose worker-thread verdict nobody waits for
         self.b = Buffer(history=self.h, validator=self.val,
                         enable_history_search=Condition(lambda: self.flags["ehs"]),
                         validate_while_typing=Condition(lambda: self.flags["vwt"]),
@@ -514,7 +572,9 @@ class BufRig:
         return self.flags["keep"]
 
     def snap(self):
-        return snap(self.b, self.h, self.app, self.flags["ehs"], self.gated, self.val, self.flags["vwt"])
+        d = snap(self.b, self.h, self.app, self.flags["ehs"], self.gated, self.val, self.flags["vwt"])
+        d["orphans"] = list(self.orphans)
+        return d
 
     def running(self):
         return bool(closure_var(self.b._async_validator, "running"))
@@ -525,16 +585,19 @@ class BufRig:
         validator again"""
         await spin(6)
         if self.vasync == 2:
-            for _ in range(200000):
-                fl = self.inner.in_flight()
-                if not self.running() and not fl:
-                    break
-                if self.running() and fl and (calls_before is None or self.inner.calls > calls_before):
-                    break
-                await asyncio.sleep(0.001)
-            else:
-                raise RuntimeError("threaded validator did not settle")
+            await wait_until(lambda: settled(self.b, self.inner, calls_before),
+                             "Buffer + ThreadedValidator: the validation coroutine neither ends nor reaches the "
+                             "inner validator")
             await spin(6)
+            if orphaned(self.b, self.inner):
+                # give a worker that is on its way out a moment; on the unchanged tree the coroutine
+                # stays `running` until the worker's result has been delivered
+                for _ in range(50):
+                    await asyncio.sleep(0.001)
+                    if not orphaned(self.b, self.inner):
+                        break
+                else:
+                    self.orphans.append(self.inner.in_flight()[0])
 
     async def apply(self, op):
         """apply one op to the real Buffer; return the out token"""
@@ -596,10 +659,9 @@ class BufRig:
             if self.vasync and self.inner.release():
                 if self.vasync == 2:
                     # the released call must be gone before "settled" can be judged
-                    for _ in range(200000):
-                        if self.inner.calls > n or not self.running():
-                            break
-                        await asyncio.sleep(0.001)
+                    await wait_until(lambda: self.inner.calls > n or not self.running(),
+                                     "Buffer + ThreadedValidator: the finished worker's verdict is never "
+                                     "delivered to the validation coroutine")
                 await self.quiesce()
             else:
                 await self.quiesce()
@@ -841,11 +903,13 @@ async def finish(task):
 
 async def sess_trace(case):
     """run the case on a real PromptSession: (lines, events)"""
-    holder = [None]
+    holder = [None, None]
     del _ERRORS[:]
     try:
         return await sess_trace1(case, holder)
     finally:
+        if holder[1] is not None:
+            holder[1].release_all()
         t = holder[0]
         if t is not None and not t.done():
             t.cancel()
@@ -861,7 +925,50 @@ async def sess_trace1(case, holder):
     vi = case["kind"] == "vi"
     with create_pipe_input() as inp:
         h = InMemoryHistory(list(case["hist"]))
-        val = (GatedValidator if case.get("vasync") else ScriptedValidator)(list(case["val"]))
+        va = int(case.get("vasync", 0))
+        inner = None
+        orphans = []
+        if va == 2:
+            # a real ThreadedValidator: the worker thread blocks in the inner validator until `valdone`
+            inner = BlockingInner(list(case["val"]))
+            val = ThreadedValidator(inner)
+            val.in_flight, val.release = inner.in_flight, inner.release
+            holder[1] = inner
+        else:
+            val = (GatedValidator if va else ScriptedValidator)(list(case["val"]))
+
+        async def thread_settle(task):
+            """with worker threads: wait (real time, under the watchdog) until the validation coroutine
+            has ended or is waiting for a worker that sits in the inner validator"""
+            if va != 2 or task.done() or app.is_done:
+                return
+            await wait_until(lambda: task.done() or app.is_done or settled(b, inner),
+                             "PromptSession + ThreadedValidator: the validation coroutine neither ends nor "
+                             "reaches the inner validator")
+            await settle(task, 4)
+            if not (task.done() or app.is_done) and orphaned(b, inner):
+                for _ in range(50):
+                    await asyncio.sleep(0.001)
+                    if not orphaned(b, inner):
+                        break
+                else:
+                    orphans.append(inner.in_flight()[0])
+
+        def check_errors():
+            """an exception that reached the event loop is a harness-level error - except a
+            ValidationError of the threaded validator: that is a verdict nobody received"""
+            if va == 2 and _ERRORS and all("ValidationError" in e for e in _ERRORS):
+                orphans.append(("<ValidationError reached the event loop's exception handler: " + _ERRORS[0] + ">", -1))
+                del _ERRORS[:]
+                return
+            globals()["check_errors"]()
+
+        async def drain_workers():
+            """the prompt has ended: its validation task was cancelled; let the worker go"""
+            if va == 2:
+                inner.release_all()
+                await wait_until(lambda: not inner.in_flight(), "worker thread does not leave the inner validator")
+
         session = PromptSession(history=h, input=inp, output=DummyOutput(),
                                 validator=val,
                                 enable_history_search=bool(case["ehs"]),
@@ -879,7 +986,9 @@ async def sess_trace1(case, holder):
             return "1 " if app.vi_state.input_mode == InputMode.NAVIGATION else "0 "
 
         def sn():
-            return snap(b, h, app, case["ehs"], False, val, case["vwt"])
+            d = snap(b, h, app, case["ehs"], False, val, case["vwt"])
+            d["orphans"] = list(orphans)
+            return d
 
         l0 = snap_line(sn())
         lines += [l0, l0]
@@ -890,9 +999,11 @@ async def sess_trace1(case, holder):
                                                                    set_exception_handler=False))
                 holder[0] = task
                 await settle(task, 12)
+                await thread_settle(task)
                 check_errors()
                 if task.done() or app.is_done:
                     res = await finish(task)
+                    await drain_workers()
                     after = sn()
                     lines.append(snap_line(after, "acc:" + enc_str(res)))
                     events.append({"ev": "accept", "text": p["default"], "result": res, "before": before,
@@ -907,10 +1018,12 @@ async def sess_trace1(case, holder):
                         await finish(task)
                     except Abort:
                         pass
+                    await drain_workers()
                 continue
             task = asyncio.ensure_future(session.prompt_async(default=p["default"], set_exception_handler=False))
             holder[0] = task
             await settle(task, 10)
+            await thread_settle(task)
             check_errors()
             s = sn()
             lines.append(snap_line(s))
@@ -924,10 +1037,15 @@ async def sess_trace1(case, holder):
                 before_nav = vi and navflag().startswith("1")
                 if key[0] == "valdone":
                     # not a key: the validation in flight finishes
-                    val.release()
+                    ncalls = inner.calls if va == 2 else None
+                    if val.release() and va == 2:
+                        await wait_until(lambda: inner.calls > ncalls or not closure_var(b._async_validator, "running"),
+                                         "PromptSession + ThreadedValidator: the finished worker's verdict is never "
+                                         "delivered to the validation coroutine")
                 else:
                     inp.send_text(vi_key_bytes(key) if vi else key_bytes(key))
                 await settle(task, 12 if vi else 10)
+                await thread_settle(task)
                 check_errors()
                 nv = navflag() if vi else ""
                 # the accepting keys: Enter (in a multiline prompt only from vi navigation mode), Esc Enter
@@ -941,6 +1059,7 @@ async def sess_trace1(case, holder):
                     continue
                 if task.done() or app.is_done:
                     res = await finish(task)
+                    await drain_workers()
                     done = True
                     after = sn()
                     lines.append(snap_line(after, nv + "acc:" + enc_str(res)))
@@ -963,6 +1082,7 @@ async def sess_trace1(case, holder):
                     await finish(task)
                 except Abort:
                     pass
+                await drain_workers()
                 events.append({"ev": "abort", "before": before, "after": sn()})
     return lines, events
 
@@ -987,7 +1107,32 @@ def run_real(case):
     return val
 
 
+def threaded(case):
+    return case.get("vasync") == 2
+
+
 def run_real1(case):
+    """the families with real worker threads run under the watchdog (see SHORT / LONG / BREAK)"""
+    if not threaded(case):
+        return run_real2(case)
+    if _STALLS[0] >= BREAK:
+        return Skipped()
+    try:
+        _LIMIT[0] = SHORT
+        return run_real2(case)
+    except (Stall, asyncio.TimeoutError):
+        pass
+    try:
+        _LIMIT[0] = LONG            # confirm once, patiently: load must not produce a false alarm
+        return run_real2(case)
+    except (Stall, asyncio.TimeoutError) as e:
+        _STALLS[0] += 1
+        return StallResult(str(e) or type(e).__name__)
+    finally:
+        _LIMIT[0] = SHORT
+
+
+def run_real2(case):
     loop = get_loop()
     asyncio.set_event_loop(loop)
     if case["kind"] == "buf":
@@ -998,7 +1143,7 @@ def run_real1(case):
                 return await buf_trace(case, app)
 
         return loop.run_until_complete(go())
-    return loop.run_until_complete(asyncio.wait_for(sess_trace(case), 200))
+    return loop.run_until_complete(asyncio.wait_for(sess_trace(case), 12 * _LIMIT[0] if threaded(case) else 200))
 
 
 def real_words(text):
@@ -1020,6 +1165,10 @@ def impl_lines(case):
     if case["kind"] == "words":
         return [enc_strs(real_words(t)) for t in case["texts"]]
     r = run_real(case)
+    if isinstance(r, StallResult):
+        return ["stall: " + r.msg[:200]]
+    if isinstance(r, Skipped):
+        return ["skipped: %d stalls of the threaded-validator family already confirmed in this worker" % BREAK]
     if case["kind"] == "buf":
         return buf_lines_from_trace(case, r)
     return r[0]
@@ -1350,6 +1499,25 @@ def sprinkle_valdone(rng, case):
     return case
 
 
+def rand_threaded_sess_case(rng):
+    """a PromptSession whose validator is a real ThreadedValidator (validate-while-typing on): keys,
+    background verdicts arriving (`valdone`) before and after Enter"""
+    case = rand_sess_case(rng)
+    while case.get("ml") or any(p.get("accept_default") for p in case["prompts"]):
+        case = rand_sess_case(rng)
+    sprinkle_valdone(rng, case)
+    case["vasync"] = 2
+    case["vwt"] = 1
+    case["val"] = [1, rng.choice(["x", "a", "b"]), rng.randrange(3), rng.choice([-1, 0, 1, 2])]
+    for p in case["prompts"]:
+        keys = p["keys"]
+        # the pattern of the property: type, let the verdict arrive, then Enter
+        if rng.random() < 0.7:
+            at = len(keys) - 1 if keys and keys[-1][0] in ("enter", "escenter") else len(keys)
+            keys[at:at] = [["char", rng.choice(["x", "a", "b", "c"])], ["valdone"], ["valdone"]]
+    return case
+
+
 def rand_sess_case(rng):
     n = rng.choice([0, 1, 2, 3, 3, 4, 6])
     hist = [rng.choice(RT[1:]) for _ in range(n)]
@@ -1469,6 +1637,8 @@ def _all_cases(tier, rng):
     nvi = 100 if tier == "quick" else 2500
     for _ in range(nvi):
         yield rand_vi_case(rng)
+    for _ in range(40 if tier == "quick" else 500):
+        yield rand_threaded_sess_case(rng)
 
 
 def _expensive(case):
@@ -1714,6 +1884,10 @@ def buf_oracle(case, trace):
         desc = f"op {i - 1} {op}"
         if not wf(V, site, after, desc):
             break
+        if after.get("orphans"):
+            V.add(STALL_SIG[0], STALL_SIG[1],
+                  f"{desc}: a worker thread is validating {after['orphans'][0]!r} but the validation coroutine "
+                  f"has already ended (validation_state={after['vstate']}): its verdict is never delivered")
         if k in NAV_OPS:
             check_nav(V, site, k, before, after, desc, tracker,
                       count=op[1] if k in ("aup", "adown") else 1)
@@ -1797,6 +1971,11 @@ def sess_oracle(case, events):
         after = e["after"]
         if not wf(V, "PromptSession", after, desc):
             break
+        if after.get("orphans"):
+            V.add(STALL_SIG[0], STALL_SIG[1],
+                  f"{desc}: a worker thread is validating {after['orphans'][0]!r} but the validation coroutine "
+                  f"of the prompt has already ended (validation_state={after['vstate']}): its verdict is never "
+                  f"delivered")
         if ev == "start":
             if after["storage"] != last_storage:
                 V.add("PromptSession.prompt", "stored history changed between prompts",
@@ -1872,6 +2051,13 @@ def oracle(case):
     if case["kind"] == "words":
         return []
     r = run_real(case)
+    if isinstance(r, StallResult):
+        return [{"signature": f"{STALL_SIG[0]} | {STALL_SIG[1]}",
+                 "msg": ("with a validator wrapped in ThreadedValidator and validate_while_typing the background "
+                         "validation did not complete within %g s (confirmed after a first limit of %g s; on the "
+                         "unchanged tree these cases settle within milliseconds): %s" % (LONG, SHORT, r.msg))[:1200]}]
+    if isinstance(r, Skipped):
+        return []
     if case["kind"] == "buf":
         return buf_oracle(case, r)
     return sess_oracle(case, r[1])
